@@ -75,24 +75,55 @@ def gen_scenario(rng, want_safe):
         else:
             progs = [[o for o in p if o != "T"] for p in progs]
         safe = True
+    # --- widenings: throwing jobs, callable kinds, closure-destructor continuations, API audit operations, init hook, default ctor
+    feat = []
+    if njobs > 0 and rng.chance(1, 3):                       # jobs that throw std::runtime_error after their effect
+        for j in range(njobs):
+            if rng.chance(1, 2): body[j].append("x")
+        feat.append("throw")
+    if njobs > 0 and rng.chance(1, 4):                       # function pointer / bound member instead of a capturing lambda
+        for j in range(njobs):
+            r = rng.below(3)
+            if r == 1 and j < 8: body[j].insert(0, "F")
+            elif r == 2: body[j].insert(0, "B")
+        feat.append("kinds")
+    if njobs >= 2 and not uses_term and rng.chance(1, 6):    # a job whose closure token enqueues a continuation from its destructor
+        cands = [j for j in range(1, njobs) if parent[j] is not None and body[parent[j]][:1] not in (["F"], ["B"])]
+        if cands:
+            k = rng.choice(cands); pj = parent[k]
+            body[pj] = [("c%d" % k) if o == "e%d" % k else o for o in body[pj]]
+            feat.append("cont")
+            # every enqueuing thread waits for emptiness at its end, so that no closure is left in the queue at destruction
+            for t in range(nthreads):
+                if any(o[0] == "e" for o in progs[t]) and (not progs[t] or progs[t][-1] != "L"): progs[t].append("L")
+    if rng.chance(1, 3):                                     # observers
+        for _ in range(rng.range(1, 3)):
+            t = rng.below(nthreads); progs[t].insert(rng.below(len(progs[t]) + 1), rng.choice(["S", "I", "H", "R", "D"]))
+        feat.append("audit")
+    extra = ""
+    if rng.chance(1, 4): extra += " init=%d" % rng.below(4); feat.append("init")
+    elif rng.chance(1, 6): extra += " dflt=1"; feat.append("dflt")
+    if uses_term and rng.chance(1, 5) and "X" not in progs[0]:   # terminate() during start-up of the workers
+        progs[0].insert(0, "X"); feat.append("early-term")
     J = ";".join("%d:%s" % (j, ".".join(body[j])) for j in range(njobs)) or "-"
     Cs = ";".join(".".join(p) or "D" for p in progs[1:]) or "-"      # every client has at least one operation
     M = ".".join(progs[0]) or "-"
-    return "W=%d J=%s C=%s M=%s" % (W, J, Cs, M), safe, fam
+    return "W=%d J=%s C=%s M=%s%s" % (W, J, Cs, M, extra), safe, fam, feat
 
 def with_run(sc, sp, st, seed): return "%s sp=%d st=%d seed=%d" % (sc, sp, st, seed)
 
 corpus = [l.strip() for l in open(os.path.join(verif.VERIF, "corpus", "C10", "cases.txt")) if l.strip() and not l.startswith("#")]
 cases = list(corpus)
-fams = {}
+fams = {}; feats = {}
 if ck.replay:
     cases = [json.load(open(ck.replay))["case"]]
 else:
     NSC = 9000 if ck.thorough() else 1300          # scenarios; each is run under several schedules
     for k in range(NSC):
         spur = (k % 3 == 2)
-        sc, safe, fam = gen_scenario(rng, want_safe=spur)
+        sc, safe, fam, feat = gen_scenario(rng, want_safe=spur)
         fams[fam] = fams.get(fam, 0) + 1
+        for ft in feat: feats[ft] = feats.get(ft, 0) + 1
         nsched = 12 if ck.thorough() else 8
         for i in range(nsched):
             cases.append(with_run(sc, 1 if spur else 0, i % 2, rng.below(1 << 30)))
@@ -104,7 +135,8 @@ found = False
 exe, log = ck.build_cpp("c10_harness", ["harness/C10/pool_harness.cpp"], repo_sources=["tlx/thread_pool.cpp"],
                         extra=["-include", os.path.join(verif.VERIF, "harness", "sched", "verif_sched.hpp")])
 drv, dlog = ck.ocaml_driver("C10")
-stats = {"ok": 0, "rest_legit": 0, "spurious_runs": 0, "with_termination": 0, "le_returns": 0, "events": 0}
+stats = {"ok": 0, "rest_legit": 0, "spurious_runs": 0, "with_termination": 0, "le_returns": 0, "events": 0,
+         "model_skipped_direct_checks_only": 0}
 distinct = set()
 samples = []
 corr_broken = None
@@ -165,17 +197,21 @@ else:
                                      {"case": replay_case(), "impl": a[:3000]}, key="rest:" + strip_run(c))
                     else:
                         stats["rest_legit"] += 1
-                    if f["model"] == "accept" and (f.get("state_match") != "1" or f.get("quiescent_model") != "1" or f.get("rest_model") != ri):
+                    if f["model"] == "accept" and ri == "legit" and (f.get("state_match") != "1" or f.get("quiescent_model") != "1" or f.get("rest_model") != ri):
                         corr_broken = corr_broken or ("rest state differs from the model's: " + b[:300], c)
                 else:
                     stats["ok"] += 1
-                    if "unfinished-job-at-exit" in b:
+                    if f.get("fin", "ok") != "ok":
                         found = True; nviol += 1
-                        ck.violation("a job body was started but not finished when the destructor returned", {"case": c, "impl": a[:3000]})
+                        ck.violation("real ThreadPool run completed but its bookkeeping violates the property: " + f["fin"].replace("-", " "),
+                                     {"case": c, "impl": a[:3000]}, key="fin:" + strip_run(c))
                     if f["model"] == "accept" and f.get("final") != "main-done":
                         corr_broken = corr_broken or ("run completed but the model's main thread is not done: " + b[:300], c)
                 # (b) trace correspondence
-                if f["model"] != "accept":
+                if f["model"] == "skipped":
+                    stats["model_skipped_direct_checks_only"] += 1
+                    if int(f.get("jobs", "0")) >= 1: distinct.add(a if kind == "OK" else a[a.find(" TRACE "):])
+                elif f["model"] != "accept":
                     corr_broken = corr_broken or ("real trace not accepted by the Coq LTS: " + f["model"], c)
                 else:
                     ev = int(f.get("ev", "0")); stats["events"] += ev
@@ -204,15 +240,20 @@ ck.finish({
     "rule": "scenarios = pool size 1-4, 0-3 client threads + main thread, job forests (independent, fan-out, chains, mixed, jobs calling "
             "terminate(), two concurrent waiters) generated from VERIF_SEED; each scenario is run on the real tlx/thread_pool.cpp under the "
             "deterministic scheduler for several random schedules (uniform and sticky strategy; every third scenario with spurious wake-ups). "
+            "Widenings: jobs that throw std::runtime_error after their effect, jobs enqueued as function pointers / bound members, closures whose "
+            "captured RAII token reports its destruction (and, in some scenarios, enqueues a continuation from its destructor: these scenarios are "
+            "outside the LTS's job language and get the direct checks and the rest-state analysis only), InitThread hooks (with yields, and "
+            "terminate() during start-up), the default-size constructor, and the observers size()/idle()/has_idle()/thread(i)/done(). "
             "Every event of every real trace must be accepted by the extracted Coq transition function (atomic values, notify_one targets, "
             "user payloads are part of the events); a direct checker evaluates the property on the trace; rest states are classified. "
             "non-trivial = at least one job executed and >= 30 events; distinct = distinct event trace.",
     "samples": samples,
-    "input_distribution": dict(stats, families=fams, corpus=len(corpus)),
+    "input_distribution": dict(stats, families=fams, features=feats, corpus=len(corpus)),
 }, assumptions=[
     "atomics are sequentially consistent and the fences no-ops (the shim serialises threads): weak-memory effects are outside the model",
     "std::mutex / std::condition_variable / std::thread behave as the shim (harness/sched/verif_sched.hpp) implements them; the shim is trusted",
-    "jobs do not throw and do not block other than in enqueue()/terminate(); the pool is destroyed only after all client threads are joined",
+    "a job that throws std::exception is modelled as an ordinary job (the pool's catch block falls through to the bookkeeping); jobs do not block other than in enqueue()/terminate(); the pool is destroyed only after all client threads are joined",
+    "closure destruction, the InitThread hook, size()/thread(i) have no event in the LTS: they are examined by the direct trace checker only; idle()/has_idle() loads are compared with the model's idle_",
     "schedules are sampled (random, two strategies), not enumerated; the theorems cover all interleavings of the model",
     "extraction: ExtrOcamlBasic only; nat/list stay Coq inductives",
 ])
